@@ -106,6 +106,13 @@ class RecipeGen {
 				genCondTree(enc, width, depth + 1);
 				if (rng.chance(1, 2)) { enc.push_back(-2); genCondTree(enc, width, depth + 1); }
 				enc.push_back(-3);
+			} else if (width >= 2 && rng.chance(1, 4)) { // static slice write: target(off, sw) = value
+				size_t sw = 1 + rng.below(width - 1); size_t off = rng.below(width - sw + 1);
+				enc.push_back(-6); enc.push_back((int) off); enc.push_back((int) sw); enc.push_back(vecOfWidth(sw));
+			} else if (width >= 2 && rng.chance(1, 5)) { // dynamic bit write: target[idx] = bit (index wide enough to be in range or not)
+				size_t iw = 1; while ((size_t(1) << iw) < width) iw++;
+				if (rng.chance(1, 4) && iw > 1) iw--;
+				enc.push_back(-7); enc.push_back(vecOfWidth(iw)); enc.push_back(pickBit());
 			} else { enc.push_back(-4); enc.push_back(width ? vecOfWidth(width) : pickBit()); }
 		}
 	}
@@ -228,7 +235,9 @@ public:
 				Step s{.kind = "mux", .width = w(a), .a = sel}; size_t n = (size_t(1) << sw) - (rng.chance(1, 4) ? 1 : 0);
 				for (size_t i = 0; i < n; i++) s.list.push_back(i == 0 ? a : vecOfWidth(w(a))); add(s);
 			} else if (c < 56) { int a = pickVec(); size_t nw = 1 + rng.below(w(a)); Step s{.kind = "slice", .width = nw, .a = a}; s.k = rng.below(w(a) - nw + 1); add(s);
-			} else if (c < 59) { int a = pickVec(); Step s{.kind = "bitsel", .width = 0, .a = a}; s.k = rng.below(w(a)); add(s);
+			} else if (c < 58) { int a = pickVec(); Step s{.kind = "bitsel", .width = 0, .a = a}; s.k = rng.below(w(a)); add(s);
+			} else if (c < 59) { int a = pickVec(); size_t iw = 1; while ((size_t(1) << iw) < w(a)) iw++; if (rng.chance(1, 4) && iw > 1) iw--;
+				Step s{.kind = "dynbit", .width = 0, .a = a, .b = vecOfWidth(iw)}; add(s);
 			} else if (c < 63) { int a = pickVec(), b = pickVec(); if (w(a) + w(b) <= 80) { Step s{.kind = "cat", .width = w(a) + w(b), .a = a, .b = b}; add(s); }
 			} else if (c < 66) { int a = pickVec(); Step s{.kind = rng.chance(1, 2) ? "zext" : (rng.chance(1, 2) ? "sext" : "oext"), .width = w(a) + 1 + rng.below(3), .a = a}; add(s);
 			} else if (c < 71) { int a = pickVec(); static const char *ops[] = {"shl", "shr", "rotl", "rotr"}; Step s{.kind = ops[rng.below(4)], .width = w(a), .a = a}; s.k = rng.below(w(a) + 1); if (s.kind[0] == 'r' && s.k >= w(a)) s.k = w(a) - 1; if (s.k > w(a)) s.k = w(a); add(s);
@@ -283,6 +292,12 @@ inline void applyCondTree(const std::vector<int> &enc, size_t &pos, std::vector<
 		if (t == -4) {
 			int v = enc[pos + 1]; pos += 2;
 			if (std::holds_alternative<Bit>(target)) std::get<Bit>(target) = std::get<Bit>(vals[v]); else std::get<UInt>(target) = std::get<UInt>(vals[v]);
+		} else if (t == -6) {
+			size_t off = (size_t) enc[pos + 1], sw = (size_t) enc[pos + 2]; int v = enc[pos + 3]; pos += 4;
+			std::get<UInt>(target)(off, BitWidth(sw)) = std::get<UInt>(vals[v]);
+		} else if (t == -7) {
+			int idx = enc[pos + 1], b = enc[pos + 2]; pos += 3;
+			std::get<UInt>(target)[std::get<UInt>(vals[idx])] = std::get<Bit>(vals[b]);
 		} else if (t == -1) {
 			int c = enc[pos + 1]; pos += 2;
 			{
@@ -350,6 +365,7 @@ inline Built build(const Recipe &r, const Decoration &deco = {}) {
 		}
 		else if (k == "slice") vals[i] = UInt(vec(s.a)(s.k, BitWidth(s.width)));
 		else if (k == "bitsel") vals[i] = Bit(vec(s.a)[s.k]);
+		else if (k == "dynbit") vals[i] = Bit(vec(s.a)[vec(s.b)]);
 		else if (k == "cat") vals[i] = UInt(cat(vec(s.a), vec(s.b)));
 		else if (k == "zext") vals[i] = UInt(zext(vec(s.a), BitWidth(s.width)));
 		else if (k == "sext") vals[i] = UInt(sext(vec(s.a), BitWidth(s.width)));
